@@ -1636,6 +1636,11 @@ fn roots_at_nodes_case(rep: &mut Report, i: u64, seed: u64) {
         }
         (r, zero, format!("roots at the nodes of the {}- and {}-point Gauss-Legendre rules", n, n + 1))
     } else {
+        if i / 2 % 4 == 3 {
+            // the centre and every abscissa of level 0: the whole first level sums to exactly 0
+            let r: Vec<f64> = tables::WEIGHTS_DE[0].iter().map(|(_, a)| *a).collect();
+            return roots_at_nodes_run(rep, &mut rng, false, r, true, "roots at the centre and at every abscissa of tanh-sinh level 0".into());
+        }
         let l = 1 + (i / 2 % 3) as usize;
         let row = tables::WEIGHTS_DE[l];
         let (_, a) = row[(i / 6) as usize % row.len().min(6)];
@@ -1646,6 +1651,10 @@ fn roots_at_nodes_case(rep: &mut Report, i: u64, seed: u64) {
         }
         (r, rng.bool(), format!("(x^2 - a^2) g(x^2) with a = abscissa {:e} of tanh-sinh level {}", a, l))
     };
+    roots_at_nodes_run(rep, &mut rng, gauss, roots, with_x2, what)
+}
+
+fn roots_at_nodes_run(rep: &mut Report, rng: &mut Rng, gauss: bool, roots: Vec<f64>, with_x2: bool, what: String) {
     let amp = rng.sign() * rng.log10(-1.0, 2.0);
     let f = |x: f64| -> f64 {
         let mut v = amp;
